@@ -388,6 +388,15 @@ def c03g(ctx, tu):
             ok = len(rets) == 1 and lib.tree_name(rets[0]) == pred and "::sequences" in str(rets[0])
             ctx.ob("C03.g", name, ok, pattern=fn.pat, unit=tu.name, inst=fn.q,
                    detail="" if ok else "%s must return its own handler's %s()" % (name, pred.rsplit("::", 1)[-1]))
+            # ... read while a lock OBJECT is alive (a discarded `get_lock();` releases the lock at once): "queried
+            # after every step" includes steps other threads make
+            locks = [e for b, e in fn.flow_events() if e["e"] == "decl" and "unique_lock<" in (e.get("type") or "") and
+                     A["get_lock"] in str(e.get("init"))]
+            bare = [e for b, e in fn.events() if e["e"] == "call" and qe(e) == A["get_lock"]]
+            if bare or locks:
+                okl = bool(locks)
+                ctx.ob("C03.g.lock", name, okl, pattern=fn.pat, unit=tu.name, inst=fn.q,
+                       detail="" if okl else "the lock taken by %s is a discarded temporary: the predicate is read with no lock held" % name)
 
 
 WITNESS = r'''
